@@ -32,7 +32,7 @@ def gen_fresh_ops(rng, n):
             k = rng.choice((0, 1, 1, 2, 3))
             cs = [rng.randrange(len(CONST_POOL)) for _ in range(k)]
             w = rng.choice((None, None, 0, 1, 2, 5)) if rng.random() < 0.6 else None
-            ops.append(['sent', b, cs, w, rng.choice((None, True, False))])
+            ops.append(['sent', b, cs, w, rng.choice((None, True, False)), rng.random() < 0.3])
         elif r < 0.8:
             ops.append(['access', b, rng.randrange(4), rng.randrange(6)])
         else:
@@ -40,8 +40,15 @@ def gen_fresh_ops(rng, n):
             nb += 1
     return ops
 
-def sentence_with(cs):
-    "A sentence mentioning exactly the given constants (in that order of appearance)."
+def sentence_with(cs, quantified=False):
+    """A sentence mentioning exactly the given constants (in that order of appearance);
+    optionally quantifier-initial, the constants sitting inside the quantifier's scope."""
+    if quantified:
+        x = ('v', 0, 0)
+        body = ('P', (0, 0, 1), (x,))
+        for c in cs:
+            body = ('O', 'Conjunction', (body, ('P', (1, 0, 2), (x, CONST_POOL[c]))))
+        return ('Q', 'Existential', (0, 0), body)
     if not cs:
         return ('A', 0, 0)
     parts = []
@@ -91,7 +98,7 @@ def execute_fresh(ops, log=None):
     for step, op in enumerate(ops):
         b = branches[op[1]] if op[1] < len(branches) else branches[-1]
         if op[0] == 'sent':
-            s = lexgen.build(sentence_with(op[2]))
+            s = lexgen.build(sentence_with(op[2], len(op) > 5 and op[5]))
             b.append(sdwnode(s, op[4], op[3]))
         elif op[0] == 'access':
             b.append(anode(op[2], op[3]))
